@@ -217,26 +217,32 @@ class RawAccessPoint(TransmissionControlObject):
         return super(RawAccessPoint, self).getsockopt(option)
 
     def poll(self, event, timeout):
-        if self.state.SHUTDOWN:
-            raise err.Error(errno.ESHUTDOWN)
-        if event not in ("recv", "send"):
-            raise err.Error(errno.EINVAL)
-        return super(RawAccessPoint, self).poll(event, timeout) is not None
+        # the state must be tested under the lock that close() holds,
+        # otherwise a close() between the test and the wait is missed
+        with self.lock:
+            if self.state.SHUTDOWN:
+                raise err.Error(errno.ESHUTDOWN)
+            if event not in ("recv", "send"):
+                raise err.Error(errno.EINVAL)
+            return super(RawAccessPoint, self).poll(
+                event, timeout) is not None
 
     def send(self, send_pdu, flags):
-        if self.state.SHUTDOWN:
-            raise err.Error(errno.ESHUTDOWN)
-        log.debug("{0} send {1}".format(str(self), send_pdu))
-        super(RawAccessPoint, self).send(send_pdu, flags)
-        return self.state.ESTABLISHED is True
+        with self.lock:
+            if self.state.SHUTDOWN:
+                raise err.Error(errno.ESHUTDOWN)
+            log.debug("{0} send {1}".format(str(self), send_pdu))
+            super(RawAccessPoint, self).send(send_pdu, flags)
+            return self.state.ESTABLISHED is True
 
     def recv(self):
-        if self.state.SHUTDOWN:
-            raise err.Error(errno.ESHUTDOWN)
-        try:
-            return super(RawAccessPoint, self).recv()
-        except IndexError:
-            raise err.Error(errno.EPIPE)
+        with self.lock:
+            if self.state.SHUTDOWN:
+                raise err.Error(errno.ESHUTDOWN)
+            try:
+                return super(RawAccessPoint, self).recv()
+            except IndexError:
+                raise err.Error(errno.EPIPE)
 
     def close(self):
         super(RawAccessPoint, self).close()
@@ -288,30 +294,37 @@ class LogicalDataLink(TransmissionControlObject):
             return self.peer > 0
 
     def poll(self, event, timeout):
-        if self.state.SHUTDOWN:
-            raise err.Error(errno.ESHUTDOWN)
-        if event not in ("recv", "send"):
-            raise err.Error(errno.EINVAL)
-        return super(LogicalDataLink, self).poll(event, timeout) is not None
+        # the state must be tested under the lock that close() holds,
+        # otherwise a close() between the test and the wait is missed
+        with self.lock:
+            if self.state.SHUTDOWN:
+                raise err.Error(errno.ESHUTDOWN)
+            if event not in ("recv", "send"):
+                raise err.Error(errno.EINVAL)
+            return super(LogicalDataLink, self).poll(
+                event, timeout) is not None
 
     def sendto(self, message, dest, flags):
-        if self.state.SHUTDOWN:
-            raise err.Error(errno.ESHUTDOWN)
-        if self.peer and dest != self.peer:
-            raise err.Error(errno.EDESTADDRREQ)
-        if len(message) > self.send_miu:
-            raise err.Error(errno.EMSGSIZE)
-        send_pdu = pdu.UnnumberedInformation(dest, self.addr, data=message)
-        super(LogicalDataLink, self).send(send_pdu, flags)
-        return self.state.ESTABLISHED is True
+        with self.lock:
+            if self.state.SHUTDOWN:
+                raise err.Error(errno.ESHUTDOWN)
+            if self.peer and dest != self.peer:
+                raise err.Error(errno.EDESTADDRREQ)
+            if len(message) > self.send_miu:
+                raise err.Error(errno.EMSGSIZE)
+            send_pdu = pdu.UnnumberedInformation(
+                dest, self.addr, data=message)
+            super(LogicalDataLink, self).send(send_pdu, flags)
+            return self.state.ESTABLISHED is True
 
     def recvfrom(self):
-        if self.state.SHUTDOWN:
-            raise err.Error(errno.ESHUTDOWN)
-        try:
-            rcvd_pdu = super(LogicalDataLink, self).recv()
-        except IndexError:
-            raise err.Error(errno.EPIPE)
+        with self.lock:
+            if self.state.SHUTDOWN:
+                raise err.Error(errno.ESHUTDOWN)
+            try:
+                rcvd_pdu = super(LogicalDataLink, self).recv()
+            except IndexError:
+                raise err.Error(errno.EPIPE)
         return (rcvd_pdu.data, rcvd_pdu.ssap) if rcvd_pdu else (None, None)
 
     def close(self):
@@ -550,29 +563,33 @@ class DataLinkConnection(TransmissionControlObject):
             raise RuntimeError("only I or DISC expected, not " + rcvd_pdu.name)
 
     def poll(self, event, timeout):
-        if self.state.SHUTDOWN:
-            raise err.Error(errno.ESHUTDOWN)
+        # the state must be tested under the lock that close() holds,
+        # otherwise a close() between the test and the wait is missed
+        with self.lock:
+            if self.state.SHUTDOWN:
+                raise err.Error(errno.ESHUTDOWN)
 
-        if event == "recv":
-            if self.state.ESTABLISHED or self.state.CLOSE_WAIT:
-                rcvd_pdu = super(DataLinkConnection, self).poll(event, timeout)
+            if event == "recv":
                 if self.state.ESTABLISHED or self.state.CLOSE_WAIT:
-                    return isinstance(rcvd_pdu, pdu.Information)
-        elif event == "send":
-            if self.state.ESTABLISHED:
-                if super(DataLinkConnection, self).poll(event, timeout):
-                    return self.state.ESTABLISHED
-                return False
-        elif event == "acks":
-            with self.acks_ready:
-                if not self.acks_recvd > 0:
-                    self.acks_ready.wait(timeout)
-                if self.acks_recvd > 0:
-                    self.acks_recvd = self.acks_recvd - 1
-                    return True
-                return False
-        else:
-            raise err.Error(errno.EINVAL)
+                    rcvd_pdu = super(DataLinkConnection, self).poll(
+                        event, timeout)
+                    if self.state.ESTABLISHED or self.state.CLOSE_WAIT:
+                        return isinstance(rcvd_pdu, pdu.Information)
+            elif event == "send":
+                if self.state.ESTABLISHED:
+                    if super(DataLinkConnection, self).poll(event, timeout):
+                        return self.state.ESTABLISHED
+                    return False
+            elif event == "acks":
+                with self.acks_ready:
+                    if not self.acks_recvd > 0:
+                        self.acks_ready.wait(timeout)
+                    if self.acks_recvd > 0:
+                        self.acks_recvd = self.acks_recvd - 1
+                        return True
+                    return False
+            else:
+                raise err.Error(errno.EINVAL)
 
     def close(self):
         with self.lock:
